@@ -59,8 +59,11 @@ def routed(cfgkey, route):
         md = gen.make_md(cfg)
         md.parse(WARM)
         with md.reset_rules():
-            allr = md.get_all_rules()
+            allr, act = md.get_all_rules(), md.get_active_rules()
             md.enable([n for c in allr for n in allr[c] if n != "linkify"])
+            # ... and some of the rules that were in force on entry off, in every chain (never the fallbacks / core)
+            keep = {"paragraph", "text", "normalize", "block", "inline", "text_join"}
+            md.disable([n for c in act for n in act[c][:3] if n not in keep], True)
             md.parse(WARM)
     _RMD[key] = md
     return md
